@@ -69,4 +69,10 @@ class Prover:
         finally:
             s.pop()
         # sat / unknown: redo in a fresh solver so that the model / second opinion come from the standard pipeline
-        return prove(self.axioms, hyps, goal)
+        res = prove(self.axioms, hyps, goal)
+        if res.status == 'undecided':
+            # one retry with a 6x budget (a busy machine must not flip a verdict); still never mapped to a verdict if it stays open
+            STATS['retries'] = STATS.get('retries', 0) + 1
+            res2 = prove(self.axioms, hyps, goal, z3_ms=Z3_MS * 6, cvc5_ms=CVC5_MS * 3)
+            if res2.status != 'undecided': return res2
+        return res
